@@ -602,6 +602,7 @@ func fixture() map[string]byte {
 }
 
 func run(c *runner.Ctx) {
+	defer localZones(c)
 	for _, sp := range specs(c) {
 		c.Space(sp.space)
 		sp := sp
@@ -690,7 +691,7 @@ func main() {
 	runner.Main(runner.Config{
 		Property:  "C05",
 		Technique: "bounded-exhaustive enumeration: all strings up to a length over rule-specific alphabets + complete one-edit neighbourhoods of valid members, vs independent recognisers",
-		Rule: "per rule: (a) every string of length<=n over a small rule-specific alphabet, (b) every single substitution/insertion/deletion over a 40-symbol alphabet applied to valid seed members, " +
+		Rule: "(round 13: the date rules under 7 local time zones, among them zones with a skipped day, a missing hour and a missing midnight: every calendar day of 2011, 2018, 2023 and every quarter hour of 9 gap days is a member; values also right after map / URL / struct calls with local functions and after abandoned calls) per rule: (a) every string of length<=n over a small rule-specific alphabet, (b) every single substitution/insertion/deletion over a 40-symbol alphabet applied to valid seed members, " +
 			"(c) numeric and slice inputs for in/int/ints/float/unique; 343 date separator triples; carriers Var + struct field (a quarter of the values also right after a call that shadowed every built-in name for itself, another quarter right after a call that replaced the field's rule for itself); prefix / suffix options that hold slashes or start / end with a blank; evaluation = one (value, carrier) call; " +
 			"inputs the documentation does not decide (signed numbers, leading-zero octets, IPv4-mapped IPv6 text, invalid UTF-8 for json) are skipped and counted",
 		Assumptions: []string{"recognisers in internal/lang are the documented languages", "Go regexp engine trusted for the re rule (pattern extraction is under test)"},
